@@ -53,7 +53,7 @@ Holds(rec) ==
                 [] Prop = "C10" -> PortExact(rec.args.s, RFromRes(rec.res))
                 [] Prop = "C18" -> ViewsReal(rec.args.s, rec.res)
                 [] OTHER -> TRUE
-    [] rec.fn = "AdjustOffs" -> (Prop # "C18") \/ RelocateReal(rec.args.s, rec.args.offs, rec.args.len, rec.res)
+    [] rec.fn = "AdjustOffs" -> (Prop \notin {"C18", "C11"}) \/ RelocateReal(rec.args.s, rec.args.offs, rec.args.len, rec.res)
     [] OTHER -> TRUE
 
 Init == i = 1
